@@ -1,4 +1,6 @@
-//! Bounded bit-set model of the subset of roaring 0.10 used by arroy: universe = ids 0..64 (probe version).
+//! Bounded bit-set model of the subset of roaring 0.10 used by arroy: universe = ids 0..64.
+//! An id >= 64 given to a mutator trips an assertion of the *model* (reported as inconclusive).
+#![allow(clippy::all)]
 use std::fmt;
 use std::io;
 use std::ops::{BitAnd, BitOr, BitOrAssign, Sub, SubAssign, BitAndAssign};
@@ -15,20 +17,38 @@ impl std::error::Error for ModelError {}
 
 impl fmt::Debug for RoaringBitmap { fn fmt(&self, f: &mut fmt::Formatter) -> fmt::Result { f.write_str("RoaringBitmap") } }
 
+/// index of the lowest set bit (x != 0), without the cttz intrinsic (Kani 0.68 ICEs on it here)
+#[inline] fn tz(mut x: u64) -> u32 { let mut n = 0;
+    if x & 0xFFFF_FFFF == 0 { n += 32; x >>= 32; }
+    if x & 0xFFFF == 0 { n += 16; x >>= 16; }
+    if x & 0xFF == 0 { n += 8; x >>= 8; }
+    if x & 0xF == 0 { n += 4; x >>= 4; }
+    if x & 0x3 == 0 { n += 2; x >>= 2; }
+    if x & 0x1 == 0 { n += 1; }
+    n }
+/// index of the highest set bit (x != 0)
+#[inline] fn hi(mut x: u64) -> u32 { let mut n = 0;
+    if x >> 32 != 0 { n += 32; x >>= 32; }
+    if x >> 16 != 0 { n += 16; x >>= 16; }
+    if x >> 8 != 0 { n += 8; x >>= 8; }
+    if x >> 4 != 0 { n += 4; x >>= 4; }
+    if x >> 2 != 0 { n += 2; x >>= 2; }
+    if x >> 1 != 0 { n += 1; }
+    n }
 #[inline] fn bit(v: u32) -> u64 { assert!(v < UNIVERSE, "roaring model: id outside the bounded universe"); 1u64 << v }
 
 impl RoaringBitmap {
     pub fn new() -> Self { RoaringBitmap { bits: 0 } }
     pub fn insert(&mut self, v: u32) -> bool { let b = bit(v); let r = self.bits & b == 0; self.bits |= b; r }
-    pub fn push(&mut self, v: u32) -> bool { let b = bit(v); if self.bits != 0 && (63 - self.bits.leading_zeros()) >= v { return false; } self.bits |= b; true }
+    pub fn push(&mut self, v: u32) -> bool { let b = bit(v); if self.bits != 0 && hi(self.bits) >= v { return false; } self.bits |= b; true }
     pub fn remove(&mut self, v: u32) -> bool { if v >= UNIVERSE { return false; } let b = 1u64 << v; let r = self.bits & b != 0; self.bits &= !b; r }
     pub fn contains(&self, v: u32) -> bool { v < UNIVERSE && self.bits & (1u64 << v) != 0 }
     pub fn len(&self) -> u64 { self.bits.count_ones() as u64 }
     pub fn is_empty(&self) -> bool { self.bits == 0 }
     pub fn clear(&mut self) { self.bits = 0 }
-    pub fn min(&self) -> Option<u32> { if self.bits == 0 { None } else { Some(self.bits.trailing_zeros()) } }
-    pub fn max(&self) -> Option<u32> { if self.bits == 0 { None } else { Some(63 - self.bits.leading_zeros()) } }
-    pub fn select(&self, n: u32) -> Option<u32> { let mut b = self.bits; let mut i = 0; while i < n { if b == 0 { return None; } b &= b - 1; i += 1; } if b == 0 { None } else { Some(b.trailing_zeros()) } }
+    pub fn min(&self) -> Option<u32> { if self.bits == 0 { None } else { Some(tz(self.bits)) } }
+    pub fn max(&self) -> Option<u32> { if self.bits == 0 { None } else { Some(hi(self.bits)) } }
+    pub fn select(&self, n: u32) -> Option<u32> { let mut b = self.bits; let mut i = 0; while i < n { if b == 0 { return None; } b &= b - 1; i += 1; } if b == 0 { None } else { Some(tz(b)) } }
     pub fn remove_smallest(&mut self, n: u64) { let mut i = 0; while i < n && self.bits != 0 { self.bits &= self.bits - 1; i += 1; } }
     pub fn is_superset(&self, o: &Self) -> bool { o.bits & !self.bits == 0 }
     pub fn iter(&self) -> Iter { Iter { bits: self.bits } }
@@ -40,7 +60,7 @@ impl RoaringBitmap {
     pub fn deserialize_unchecked_from(bytes: &[u8]) -> Result<Self, ModelError> { Self::deserialize_from(bytes) }
 }
 pub struct Iter { bits: u64 }
-impl Iterator for Iter { type Item = u32; fn next(&mut self) -> Option<u32> { if self.bits == 0 { None } else { let t = self.bits.trailing_zeros(); self.bits &= self.bits - 1; Some(t) } } }
+impl Iterator for Iter { type Item = u32; fn next(&mut self) -> Option<u32> { if self.bits == 0 { None } else { let t = tz(self.bits); self.bits &= self.bits - 1; Some(t) } } }
 impl IntoIterator for RoaringBitmap { type Item = u32; type IntoIter = Iter; fn into_iter(self) -> Iter { Iter { bits: self.bits } } }
 impl<'a> IntoIterator for &'a RoaringBitmap { type Item = u32; type IntoIter = Iter; fn into_iter(self) -> Iter { Iter { bits: self.bits } } }
 impl FromIterator<u32> for RoaringBitmap { fn from_iter<I: IntoIterator<Item = u32>>(it: I) -> Self { let mut r = RoaringBitmap::new(); for v in it { r.insert(v); } r } }
